@@ -27,6 +27,8 @@ OBLIGATIONS = [NS + t for t in [
     "image_flux_smul", "zero_flux_zero", "renderForModel_eq_sum",
 ]] + ["Pysersic.Render.combineScene_add", "Pysersic.Render.combineScene_smul", "Pysersic.Render.combineScene_zero",
      "Pysersic.Render.sceneArr_eq", "Pysersic.Render.tabI_get", "Pysersic.Render.tabF_get"]
+# kernels whose translated source text (Gen/Kernels.lean) is proved equal to the model kernel this property's theorems are about
+GEN_KERNELS = ["render_sersic_2d", "render_gaussian_pixel_term", "render_gaussian_fourier_term", "render_pointsource_fourier", "sersic1D_cx"]
 MIRRORED_FILES = ["pysersic/rendering.py"]
 ASSUMPTIONS = [
     "jnp.fft.rfft2/irfft2 are modelled as the explicit DFT sums (validated by the tie at 1e-9 of the peak in float64)",
